@@ -7,7 +7,7 @@ claimed = {
    level="exploration",
    text="Seeded search over clock schedules: the simulated clock's jump/creep/stall position ranges over every clock read of New/solve/re-solve histories on generated problems; reference model R1 (timer accounting from label events) plus a frozen-clock reference execution decide when the solve must stop, what it may report, and that MaxTime has a cause. Sampling, not proof: the right level because the clock clause is a property of schedules that no real-clock test can reach and that has no finite enumeration.",
    design_ref="DESIGN.md §4 C04, §2.2",
-   note="Trusted: the guarded hook lines emit timer events faithfully; simulated time advances only at clock reads; print-span time is not counted against the limit. Input clauses (no panic, bad dimensions rejected, iterations <= max_iter) are asserted on every simulated run but the input space is only sampled.",
+   note="Trusted: the guarded hook lines emit timer events faithfully; simulated time advances only at clock reads; print-span time is not counted against the limit. R1 knows no timer by name. Input clauses (no panic, bad dimensions rejected, iterations <= max_iter) are asserted on every simulated run, including boundary shapes (m = 0, empty and singleton cones, duplicated rows, zero columns, 1e-8..1e8 scalings, huge finite limits), but the input space is only sampled. The simulated build has overflow checks and debug assertions on.",
    technique="deterministic simulation: seeded clock-fault schedules vs timer reference model"),
 }
 
@@ -15,13 +15,13 @@ claimed["C03"] = dict(
    level="exploration",
    text="Seeded search over interruption points: every solve of a generated history is cut by the simulated clock (MaxTime at a chosen clock read) and/or by max_iter at a chosen iteration, and re-solved after the cut; the report (obj_val, obj_val_dual, r_prim, r_dual, iterations, Almost* justification, NaN objectives and certificate sign for infeasible statuses, vector lengths) is recomputed from the returned x,s,z and the user's data by independent arithmetic. Only the interrupted / clock-dependent paths are claimed; reports on uninterrupted runs are a pure function of the input.",
    design_ref="DESIGN.md §4 C03",
-   note="Agreement to rounding = 2^-36 of the sum of absolute values of the terms. Almost*Infeasible tolerances are scale dependent and only checked for sign/NaN. Input space sampled.",
+   note="Agreement to rounding = 2^-36 of the sum of absolute values of the terms; recomputation skipped for iterates beyond 1e50. Histories include accepted in-place updates and presolve-dropped rows. Almost*Infeasible tolerances are scale dependent and only checked for sign/NaN. Known finding F8 (non-finite figure for a finite point, thorough tier only) is keyed. Input space sampled.",
    technique="deterministic simulation: clock/iteration-budget cuts at every boundary + independent recomputation oracle")
 claimed["C20"] = dict(
    level="exploration",
    text="The same seeded history is executed once per print target under a clock that is a pure function of the read index: buffer (reference), stream with seeded short writes and EINTR, file, sink, and a stream with a hard fault (EPIPE/ENOSPC/other/Ok(0)) at a chosen call. Decides: verbose off writes nothing anywhere; stream = file = buffer bytes exactly; after a hard sink error the accepted bytes are a prefix of the fault-free output; and the parsed log (iteration column, last row, footer status/time, header dimensions, cone lines, presolve line, settings) agrees with the returned solution and with a model of the internal problem, on paths incl. MaxTime/MaxIterations/Almost*.",
    design_ref="DESIGN.md §4 C20, §2.3",
-   note="Known finding F5 (roll-back on insufficient progress prints the discarded iterate) is listed in known_findings.txt and keyed to that call site. Stdout capture through a child process is not part of the quick tier.",
+   note="Known finding F5 (roll-back on insufficient progress prints the discarded iterate) is listed in known_findings.txt and keyed to that call site. Stdout is observed through a child process (fd 1 a pipe) for one run in 48. Histories also toggle settings.verbose, presolve_enable and equilibrate_enable between solves and switch / re-arm the print target between solves. The log parser is keyed on the parts the property names (problem block, settings keys, column names, footer) and ignores everything else.",
    technique="deterministic simulation: sink fault injection (short write, EINTR, hard error) with byte-exact reference output")
 
 claimed["C08"] = dict(
@@ -49,7 +49,7 @@ claimed["C19"] = dict(
    level="fault_enumeration",
    text="The solver really saves to and loads from files while the simulator plays the disk and the descriptor table. Fault-free configuration: stored P (upper triangle), q, A, b (capped), cones equal the user's data (exactly with equilibration off, <= 64 ulp otherwise), settings identical incl. infinite time_limit, a settings argument overrides, and the loaded problem solves to the same result (bitwise with equilibration off). Fault configurations: every enumerated disk fault (lost write, truncation, bit flip, hostile-byte substitution, zeroed sector, duplicated tail, stale tail) and descriptor fault (/dev/full, read-only, write-only, directory, handle not rewound, pipe delivering 1-7 byte reads) must end in Err - or, for byte corruptions that leave a well-formed document, in Ok with a usable solver carrying exactly the stored value - and never in a panic or abort. Thorough tier enumerates every truncation offset and every bit of every byte of each generated file.",
    design_ref="DESIGN.md §4 C19, §2.4",
-   note="EINTR on the JSON handles is not injected (concrete std::fs::File). When a corruption changes a settings value the loaded solver is constructed but not solved (arbitrary settings are covered by no property).",
+   note="EINTR on the JSON handles is not injected (concrete std::fs::File). When a corruption changes a settings value the loaded solver is constructed but not solved (arbitrary settings are covered by no property). The saved solver may have been solved, updated in place and had public settings edited before saving; a second-generation save of the loaded solver must not drift. With equilibration on, a verdict disagreement is judged only when both verdicts are independently backed by the returned vectors.",
    technique="deterministic simulation: enumerated disk/descriptor fault injection between save and load")
 
 na = {
